@@ -3,6 +3,7 @@ package main
 import (
 	"fmt"
 	"go/constant"
+	"go/token"
 	"go/types"
 	"strings"
 
@@ -298,6 +299,10 @@ func c04r3(r *R) {
 		if g.group != top || g.kind != "request" || g.call == stackReg.call {
 			continue
 		}
+		if g.arg == "(*forwarder.HTTPProxy).basicAuth($0)" {
+			// the constructor reads the configured credentials itself instead of being handed them (C04.R4 checks what it binds)
+			g.arg = "(*forwarder.HTTPProxy).basicAuth($0, $0.config.HTTPServerConfig.BasicAuth)"
+		}
 		cond, isSec := want[g.arg]
 		if !isSec {
 			r.bad("middlewareStack#top("+g.arg+")", g.call.Pos(), "an unexpected request modifier runs in the security group")
@@ -394,6 +399,11 @@ func c04r4(r *R) {
 		if s.fn == "basicAuth" {
 			b := closureBindings(lit)
 			good := len(b) == 3 && b[0] == "middleware.NewProxyBasicAuth()" && b[1] == "(*net/url.Userinfo).Username($1)" && b[2] == "(*net/url.Userinfo).Password($1)#0"
+			if len(fn.Params) == 1 {
+				// no parameter: the credentials are the configured ones, read in place
+				const cfg = "$0.config.HTTPServerConfig.BasicAuth"
+				good = len(b) == 3 && b[0] == "middleware.NewProxyBasicAuth()" && b[1] == "(*net/url.Userinfo).Username("+cfg+")" && b[2] == "(*net/url.Userinfo).Password("+cfg+")#0"
+			}
 			r.check(good, "HTTPProxy.basicAuth#bindings", lit.Pos(), "compares against the configured user name and password on the Proxy-Authorization header", "basic auth closure is bound to "+strings.Join(b, ", "))
 		}
 	}
@@ -606,6 +616,16 @@ func c04r7(r *R) {
 				return
 			}
 			if fa, ok := st.Addr.(*ssa.FieldAddr); ok && fieldName(fa.X.Type(), fa.Field) == "localhost" {
+				// a copy (slices.Clone) of a package-level list that is built once from literals
+				if cl, ok := st.Val.(*ssa.Call); ok && calleeName(cl.Common()) == "slices.Clone" && len(cl.Common().Args) == 1 {
+					if ld, ok := cl.Common().Args[0].(*ssa.UnOp); ok && ld.Op == token.MUL {
+						if g, ok := ld.X.(*ssa.Global); ok {
+							for _, nm := range globalStringList(g) {
+								seed[nm] = true
+							}
+						}
+					}
+				}
 				if sl, ok := st.Val.(*ssa.Slice); ok {
 					if a, ok := sl.X.(*ssa.Alloc); ok {
 						for _, ref := range *a.Referrers() {
